@@ -412,6 +412,58 @@ func runOci(mode string, seed int64, tier string, sc *Script) map[string]any {
 					}
 					sc.Op("ok", "o saveindex")
 				}
+				if rng.Intn(4) == 0 {
+					// a GC that fails must change nothing: either its context is already
+					// cancelled, or a named manifest cannot be read while the index is rebuilt
+					cctx, cancel := context.WithCancel(ctx)
+					var restore func()
+					if rng.Intn(2) == 0 {
+						cancel()
+					} else {
+						for _, n := range rng.Perm(len(u.Nodes)) {
+							nd := u.Nodes[n]
+							if !nd.Kind.IsManifest() {
+								continue
+							}
+							named := false
+							for t := 0; t < 4 && !named; t++ {
+								if d, err := c.store.Resolve(ctx, fmt.Sprintf("tag%d", t)); err == nil && d.Digest == nd.Desc.Digest {
+									named = true
+								}
+							}
+							p := filepath.Join(dir, "blobs", nd.Desc.Digest.Algorithm().String(), nd.Desc.Digest.Encoded())
+							if fi, err := os.Stat(p); named && err == nil {
+								os.Chmod(p, 0o644)
+								os.WriteFile(p, nd.Bytes[:len(nd.Bytes)/2], 0o644)
+								restore = func() { os.WriteFile(p, nd.Bytes, 0o644); os.Chmod(p, fi.Mode()) }
+								break
+							}
+						}
+						if restore == nil {
+							cancel() // nothing named to damage: fall back to the cancelled context
+						}
+					}
+					err := c.store.GC(cctx)
+					cancel()
+					if restore != nil {
+						restore()
+					}
+					if err != nil {
+						sc.Op("err", "o gcfail")
+						if restore != nil {
+							sc.Count("op:gc-unreadable-manifest")
+						} else {
+							sc.Count("op:gc-cancelled")
+						}
+						queries("o ", c.store)
+						continue
+					}
+					// it ran to completion all the same: an ordinary GC
+					sc.Op("ok", "o gc")
+					sc.Count("op:gc")
+					queries("o ", c.store)
+					continue
+				}
 				done := make(chan error, 1)
 				go func() { done <- c.store.GC(ctx) }()
 				select {
